@@ -15,7 +15,7 @@ func GenCfg(t *rapid.T, kind string) Cfg {
 		c.Cmp = []string{dom.Nat, dom.Rev}[rapid.IntRange(0, 1).Draw(t, "cmp")]
 	}
 	if kind == "circularbuffer" {
-		c.Cap = []int{1, 2, 3, 4, 7, 8, 16, 33}[rapid.IntRange(0, 7).Draw(t, "cap")]
+		c.Cap = []int{1, 2, 3, 4, 7, 8, 16, 33, 64, 100}[rapid.IntRange(0, 9).Draw(t, "cap")]
 	}
 	if kind == "btree" {
 		c.Order = []int{3, 4, 5, 8, 9, 16}[rapid.IntRange(0, 5).Draw(t, "order")]
@@ -57,11 +57,33 @@ func GenRot(t *rapid.T, methods []string) int {
 	return rapid.IntRange(0, len(methods)-1).Draw(t, "rot")
 }
 
+// Small is set by GenSteps for kinds whose observers are quadratic (the heap's
+// Values()/String()/iteration rebuild a level per element): bulk steps stay small there.
+var heavyKinds = map[string]bool{"binaryheap": true, "priorityqueue": true}
+
 // GenStep draws one step among the given method names.
-func GenStep(t *rapid.T, methods []string, rot int) Step {
+func GenStep(t *rapid.T, methods []string, rot int) Step { return genStep(t, methods, rot, false) }
+
+func genStep(t *rapid.T, methods []string, rot int, small bool) Step {
 	x := rapid.IntRange(0, 1<<20).Draw(t, "method")
 	s := Step{M: methods[(x*7919+rot)%len(methods)]}
 	s.R = rapid.SliceOfN(rapid.IntRange(0, 1<<22), 1, 8).Draw(t, "raw")
+	switch s.M {
+	case "Add", "Append", "Prepend", "Insert", "Put", "Push", "Enqueue", "Remove", "Pop", "Dequeue":
+		switch rapid.IntRange(0, 79).Draw(t, "bulk") {
+		case 0: // the same call many times (one value per call): hundreds of elements, long removal runs
+			s.N = rapid.IntRange(20, 160).Draw(t, "repeat")
+			if small {
+				s.N = 12 + s.N%24
+			}
+			s.V = 1
+		case 1, 2: // one variadic call with many values
+			s.V = []int{8, 9, 16, 33, 64, 70, 129, 300}[rapid.IntRange(0, 7).Draw(t, "many")]
+			if small {
+				s.V = 8 + s.V%3
+			}
+		}
+	}
 	switch s.M {
 	case "FromJSON", "UnmarshalJSON":
 		s.B = GenBytes(t)
@@ -82,8 +104,18 @@ func GenStep(t *rapid.T, methods []string, rot int) Step {
 // generator so that rapid can shrink by deleting steps anywhere in the script;
 // several chunks are concatenated because rapid's slices are short on average.
 func GenSteps(t *rapid.T, methods []string, chunks, maxPerChunk int) []Step {
+	return GenStepsFor(t, "", methods, chunks, maxPerChunk)
+}
+
+// GenStepsFor is GenSteps with the container kind known (bulk steps are kept
+// small for kinds with quadratic observers, and fewer chunks are drawn).
+func GenStepsFor(t *rapid.T, kind string, methods []string, chunks, maxPerChunk int) []Step {
+	small := heavyKinds[kind]
+	if small && chunks > 2 {
+		chunks = 2
+	}
 	rot := GenRot(t, methods)
-	step := rapid.Custom(func(t *rapid.T) Step { return GenStep(t, methods, rot) })
+	step := rapid.Custom(func(t *rapid.T) Step { return genStep(t, methods, rot, small) })
 	var out []Step
 	for i := 0; i < chunks; i++ {
 		out = append(out, rapid.SliceOfN(step, 0, maxPerChunk).Draw(t, "steps")...)
